@@ -169,13 +169,13 @@ int main(int argc, char** argv)
     quill::utility::StringRef sr{es};
     std::fprintf(h.out,
                  "{\"e\":\"Consts\",\"cachecap\":%zu,\"level\":%zu,\"count\":%zu,\"len\":%zu,\"opt\":%zu,\"sref\":%zu,"
-                 "\"dtriv\":%zu,\"dnon\":%zu,\"dalloc\":%zu,\"qcap\":%zu,\"ncases\":%d}\n",
+                 "\"ptr\":%zu,\"sz_dtriv\":%zu,\"sz_dnon\":%zu,\"al_dnon\":%zu,\"sz_dalloc\":%zu,\"al_dalloc\":%zu,"
+                 "\"qcap\":%zu,\"ncases\":%d}\n",
                  c.capacity(), sizeof(quill::LogLevel), quill::Codec<std::vector<int>>::compute_encoded_size(c, ev0),
                  quill::Codec<std::string>::compute_encoded_size(c, es), quill::Codec<std::optional<int>>::compute_encoded_size(c, eo),
-                 quill::Codec<quill::utility::StringRef>::compute_encoded_size(c, sr),
-                 quill::Codec<vt::DTriv>::compute_encoded_size(c, vt::DTriv{}), quill::Codec<vt::DNon>::compute_encoded_size(c, vt::DNon{}),
-                 quill::Codec<vt::DAlloc>::compute_encoded_size(c, vt::DAlloc{}), static_cast<size_t>(FOpts::initial_queue_capacity),
-                 g_ncases);
+                 quill::Codec<quill::utility::StringRef>::compute_encoded_size(c, sr), sizeof(void const*), sizeof(vt::DTriv),
+                 sizeof(vt::DNon), alignof(vt::DNon), sizeof(vt::DAlloc), alignof(vt::DAlloc),
+                 static_cast<size_t>(FOpts::initial_queue_capacity), g_ncases);
   }
   std::fprintf(h.out, "{\"e\":\"Backend\",\"t\":0}\n");
 
